@@ -7,6 +7,7 @@ nodes, data as order-insensitive snapshots (lib.heapgraph.snap); no ids, uuids, 
 """
 import os
 import shutil
+import sys
 import tempfile
 
 import jsonpickle
@@ -569,7 +570,355 @@ def run_copy(case):
     return out
 
 
-KINDS = {"codec": run_codec, "rec": run_rec, "cas": run_cas, "play": run_play, "copy": run_copy}
+# ---------------------------------------------------------------------------------------------
+# kind "deep": reads / fetches / injections made at EVERY remaining stack headroom (crash points of the copy)
+#
+# A read is made by code that sits somewhere in a call stack.  The copy a read has to make needs stack of its own (jsonpickle:
+# ~4 frames per nesting level of the value, ~20 for a flat one), so for every value there is a band of headrooms in which
+# the copy cannot be completed (RecursionError).  There a read may fail - it must never hand out the stored object graph.
+# The band is small (tens to a few hundred frames), so it is ENUMERATED: headroom h = 1, 2, 3, ... until the read has
+# succeeded DEEP_SETTLE times in a row.
+
+DEEP_SETTLE = 8
+DEEP_CAP = 700
+
+
+def _stack_depth():
+    f, n = sys._getframe(), 0
+    while f is not None:
+        n += 1
+        f = f.f_back
+    return n
+
+
+def _descend(n, action):
+    if n <= 0:
+        return action()
+    return _descend(n - 1, action)
+
+
+def at_headroom(h, action):
+    """Runs action() with about h frames left before the interpreter's recursion limit (stands for the recursive algorithm
+    of the calling code that reads at the bottom).  Whatever action raises propagates."""
+    return _descend(sys.getrecursionlimit() - _stack_depth() - h - 2, action)
+
+
+def _attempt(h, action):
+    try:
+        return "val", at_headroom(h, action)
+    except RecursionError:
+        return "raise:RecursionError", None
+    except Exception as ex:
+        return "raise:" + err_name(ex), None
+
+
+def _runs(seq):
+    """[[h_from, h_to, outcome], ..] of a list of (h, outcome)."""
+    out = []
+    for h, o in seq:
+        if out and out[-1][2] == o and out[-1][1] == h - 1:
+            out[-1][1] = h
+        else:
+            out.append([h, h, o])
+    return out
+
+
+def _scan(probe):
+    """probe(h) -> outcome text, 'fresh' meaning a complete success, an upper-case text a violation; h = 1.. until
+    DEEP_SETTLE successes in a row or the first violation (what follows a violation works on an altered store)."""
+    seq, streak, h = [], 0, 0
+    while streak < DEEP_SETTLE and h < DEEP_CAP:
+        h += 1
+        o = probe(h)
+        seq.append((h, o))
+        if o[:1].isupper():
+            break
+        streak = streak + 1 if o == "fresh" else 0
+    return seq
+
+
+def _deep_reads(recording, case, out, extra_roots=()):
+    """get_data / __getitem__ of every key at every headroom; each returned value is checked against the store by id()-walk,
+    then mutated in place, then the key is read again (at ordinary depth)."""
+    script = case["script"]
+    out["keys"] = []
+    for key, _ in case["data"]:
+        o = {"key": key}
+        stored = recording.get_data_direct(key)
+        stored0 = hg.snap(stored)
+        try:
+            base = hg.snap(recording.get_data(key))
+        except BaseException as ex:         # cannot be copied even with the whole stack: C07's matter
+            out["keys"].append({"key": key, "skipped": "get_data raised " + err_name(ex)})
+            continue
+        o["n_mutable"] = len(hg.mutable_nodes(stored))
+        for name, read in (("get_data", lambda: recording.get_data(key)), ("getitem", lambda: recording[key])):
+            bad = {}
+
+            def probe(h):
+                how, v = _attempt(h, read)
+                if how != "val":
+                    return how
+                share = hg.shared_mutable(v, [stored, recording] + list(extra_roots))
+                same = hg.snap(v) == base
+                hg.mutate(v, script)
+                later_ok = True
+                try:
+                    later = hg.snap(recording.get_data(key))
+                    later_ok = later == base
+                except BaseException as ex:
+                    later, later_ok = "raised " + err_name(ex), False
+                now = hg.snap(recording.get_data_direct(key))
+                if share["n"] and "share" not in bad:
+                    bad["share"] = dict(share, h=h)
+                if (not later_ok or now != stored0) and "altered" not in bad:
+                    bad["altered"] = {"h": h, "first_read": clip(base), "later_read": clip(later),
+                                      "stored_before": clip(stored0), "stored_after": clip(now)}
+                if share["n"]:
+                    return "SHARES-STORED"
+                if not later_ok or now != stored0:
+                    return "ALTERS-LATER-READ"
+                return "fresh" if same else "fresh-but-different"      # (faithfulness of a deep copy: C07's matter)
+            seq = _scan(probe)
+            o[name] = {"outcomes": _runs(seq), "returned": sum(1 for _, x in seq if not x.startswith("raise:")),
+                       "raised": sum(1 for _, x in seq if x.startswith("raise:")), "bad": bad}
+            if bad:
+                break                   # the store is altered: nothing further is concluded for this key
+        out["keys"].append(o)
+    return out
+
+
+def run_deep(case):
+    path = case["path"]
+    if path == "rec":
+        rec = MemoryRecording("Op/1")
+        for key, graph in case["data"]:
+            rec.set_data(key, hg.build(graph)[1])
+        return _deep_reads(rec, case, {})
+    cas, tmp = make_cassette(case["ctype"])
+    try:
+        if path == "cas":
+            return _run_deep_cas(case, cas)
+        return _run_deep_play(case, cas)
+    finally:
+        drop_cassette(cas, tmp)
+
+
+def _run_deep_cas(case, cas):
+    """Reads of a FETCHED recording at every headroom, then fetches themselves at every headroom."""
+    rec = cas.create_new_recording("Op")
+    for key, graph in case["data"]:
+        rec.set_data(key, hg.build(graph)[1])
+    rec.add_metadata(hg.build(case["meta"])[1])
+    cas.save_recording(rec)
+    rid = rec.id
+    try:
+        first = cas.get_recording(rid)
+        base = rec_snapshot(first)
+    except BaseException as ex:
+        return {"skipped": "first fetch raised " + err_name(ex)}
+    out = _deep_reads(cas.get_recording(rid), case, {}, extra_roots=[cas])
+    keep, bad = [first, rec], {}
+
+    def probe(h):
+        how, f = _attempt(h, lambda: cas.get_recording(rid))
+        if how != "val":
+            return how
+        share = hg.shared_mutable(f, keep + [cas])
+        keep.append(f)
+        try:
+            same = rec_snapshot(f) == base
+        except BaseException:
+            same = False
+        hg.mutate(f.recording_data, case["script"])
+        hg.mutate(f.get_metadata(), case["script"])
+        f["input: injected later"] = {"value": ["tampered"]}
+        later = rec_snapshot(cas.get_recording(rid))
+        if share["n"] and "share" not in bad:
+            bad["share"] = dict(share, h=h)
+        if later != base and "altered" not in bad:
+            bad["altered"] = {"h": h, "saved": clip(base, 600), "later": clip(later, 600)}
+        if share["n"]:
+            return "SHARES"
+        if later != base:
+            return "ALTERS-LATER-FETCH"
+        return "fresh" if same else "fresh-but-different"
+    seq = _scan(probe)
+    out["fetch"] = {"outcomes": _runs(seq), "returned": sum(1 for _, x in seq if not x.startswith("raise:")),
+                    "raised": sum(1 for _, x in seq if x.startswith("raise:")), "bad": bad}
+    return out
+
+
+DEEP_TAGS = ("in", "inh", "data", "res", "exc")
+
+
+def _run_deep_play(case, cas):
+    """A replayed operation whose recursive algorithm asks for its inputs (plain, through a pass-through data handler,
+    play_data, an output's result, a recorded exception) at the bottom of its recursion, works on what it gets in place and
+    asks again: one replay per headroom."""
+    from playback.interception.input_interception import InputInterceptionDataHandler
+    rec = TapeRecorder(cas)
+    rec.enable_recording()
+    script = case["script"]
+    g_in, g_out, g_data = case["vin"], case["vout"], case["vdata"]
+
+    class Same(InputInterceptionDataHandler):
+        def prepare_input_for_recording(self, interception_key, result, args, kwargs):
+            return result
+
+        def restore_input_from_recording(self, recorded_data, args, kwargs):
+            return recorded_data
+
+    class Svc(object):
+        @rec.intercept_input('load')
+        def load(self, n):
+            return hg.build(g_in)[1]
+
+        @rec.intercept_input('loadh', data_handler=Same())
+        def loadh(self, n):
+            return hg.build(g_in)[1]
+
+        @rec.intercept_input('fail')
+        def fail(self):
+            e = ValueError('boom')
+            e.detail = hg.build(g_data)[1]
+            raise e
+
+        @rec.intercept_output('store')
+        def store(self, payload):
+            return hg.build(g_out)[1]
+
+    def fail_value(svc):
+        try:
+            svc.fail()
+        except ValueError as e:
+            return e
+        return None
+
+    cur = {}
+
+    class Op(object):
+        @rec.operation()
+        def execute(self):
+            svc = Svc()
+            reads = (("in", lambda: svc.load(1)), ("inh", lambda: svc.loadh(1)), ("data", lambda: rec.play_data("blob")),
+                     ("res", lambda: svc.store("x")), ("exc", lambda: fail_value(svc)))
+            if not rec.in_playback_mode:
+                svc.load(1)
+                svc.loadh(1)
+                rec.record_data("blob", hg.build(g_data)[1])
+                svc.store("x")
+                fail_value(svc)
+                return 1
+            h = cur["h"]
+            got = cur["got"] = {}
+
+            def bottom():
+                # the bottom of the recursion: ask for everything, each request guarded by the algorithm's depth guard
+                for tag, read in reads:
+                    try:
+                        got[tag] = ("val", read())
+                    except RecursionError:
+                        got[tag] = ("raise:RecursionError", None)
+                    except Exception as ex:
+                        got[tag] = ("raise:" + err_name(ex), None)
+            if h is None:
+                bottom()
+            else:
+                try:
+                    at_headroom(h, bottom)
+                except RecursionError:
+                    pass
+            # back at ordinary depth, still inside the replay: look at what was handed out, work on it in place, ask again
+            cur["share"] = {tag: hg.shared_mutable(v, cur["recording"]) for tag, (how, v) in got.items() if how == "val"}
+            cur["snaps"] = {tag: hg.snap(v) for tag, (how, v) in got.items() if how == "val"}
+            for tag, (how, v) in got.items():
+                if how == "val":
+                    hg.mutate(v, script)
+                    if tag == "exc" and v is not None:
+                        v.tainted = ["x"]
+            again = cur["again"] = {}
+            for tag, read in reads:
+                if tag == "res":
+                    continue            # (an output's result is recorded per call ordinal: asked for once per replay)
+                try:
+                    again[tag] = hg.snap(read())
+                except Exception as ex:
+                    again[tag] = "raised " + err_name(ex)
+            return 1
+
+    Op().execute()
+    rec.disable_recording()
+    try:
+        rid = list(cas.iter_recording_ids("Op"))[0]
+        base_rec = rec_snapshot(cas.get_recording(rid))
+    except BaseException as ex:
+        return {"skipped": "first fetch raised " + err_name(ex)}
+
+    def fn(recording):
+        cur["recording"] = recording
+        Op().execute()
+
+    def one_play(h):
+        cur.clear()
+        cur["h"] = h
+        pb = rec.play(rid, fn)
+        return pb
+
+    try:
+        one_play(None)
+    except BaseException as ex:
+        return {"skipped": "first replay raised " + err_name(ex)}
+    base = dict(cur["snaps"])
+    if any(base.get(t) != cur["again"].get(t) for t in cur["again"]) or any(s["n"] for s in cur["share"].values()):
+        # already at ordinary depth: the ordinary "play" stream's business, reported there
+        return {"skipped": "replay at ordinary depth already differs"}
+    out = {"tags": {}, "n_plays": 0}
+    bad = {}
+    per_tag = {t: [] for t in DEEP_TAGS}
+
+    def probe(h):
+        try:
+            pb = one_play(h)
+        except RecursionError:
+            for t in DEEP_TAGS:
+                per_tag[t].append((h, "raise:RecursionError(play)"))
+            return "raise:RecursionError(play)"
+        out["n_plays"] += 1
+        got = cur.get("got", {})
+        after = rec_snapshot(pb.original_recording)
+        fetched = rec_snapshot(cas.get_recording(rid))
+        all_fresh = True
+        for t in DEEP_TAGS:
+            how, _ = got.get(t, ("raise:not-reached", None))
+            if how != "val":
+                o = how
+            elif cur["share"][t]["n"]:
+                o = "SHARES-RECORDING"
+                bad.setdefault("share", dict(cur["share"][t], h=h, tag=t))
+            elif t in cur["again"] and cur["again"][t] != base.get(t):
+                o = "SECOND-REQUEST-SEES-MUTATION"
+                bad.setdefault("second", {"h": h, "tag": t, "recorded": clip(base.get(t) or ""), "second": clip(cur["again"][t])})
+            else:
+                o = "fresh" if cur["snaps"][t] == base.get(t) else "fresh-but-different"
+            per_tag[t].append((h, o))
+            all_fresh = all_fresh and o == "fresh"
+        if after != base_rec or fetched != base_rec:
+            bad.setdefault("recording", {"h": h, "which": "Playback.original_recording" if after != base_rec else "a later fetch",
+                                         "before": clip(base_rec, 600), "after": clip(after if after != base_rec else fetched, 600)})
+            return "ALTERS-RECORDING"
+        return "fresh" if all_fresh else "partial"
+    seq = _scan(probe)
+    out["plays"] = _runs(seq)
+    for t in DEEP_TAGS:
+        out["tags"][t] = {"outcomes": _runs(per_tag[t]),
+                          "returned": sum(1 for _, x in per_tag[t] if not x.startswith("raise:")),
+                          "raised": sum(1 for _, x in per_tag[t] if x.startswith("raise:"))}
+    out["bad"] = bad
+    return out
+
+
+KINDS = {"codec": run_codec, "rec": run_rec, "cas": run_cas, "play": run_play, "copy": run_copy, "deep": run_deep}
 
 
 def run_c11(case):
